@@ -148,3 +148,50 @@ SEMI_LEN = dict(target=f"{FS}::SemiSampler.__len__", inline=True, self=SEMI_SELF
                 ensures=["result == (CH * (self.num_labeled + self.num_unlabeled)) // self.world_size"])
 
 CONTRACTS = [SEMI_EL, SEMI_LEN, DIST_ITER, RAND_ITER, WEIGHTED_EL, WEIGHTED_LEN, WEIGHTED_ITER, CB_EL, CB_LEN, CB_ITER]
+
+# ---------------------------------------------------------------------------------------------------------
+# SemiSampler.__init__: the two pools partition the dataset by the -1 marker (each pool strictly increasing, sound and complete) -
+# so every index the iterator takes from labeled_idxs / unlabeled_idxs is valid for the dataset and of the promised kind
+from pyvc.absobj import LABELDATASET
+
+
+def _ext_rank(args, kwargs, st, eng):
+    """get_rank(): a non-negative integer of the process group of the moment (uninterpreted; get_world_size(): a positive one)"""
+    import z3
+    from pyvc.state import uid
+    r = z3.Int(uid("dist_rank"))
+    return VInt(z3.If(r >= 0, r, 0))
+
+
+def _ext_world(args, kwargs, st, eng):
+    import z3
+    from pyvc.state import uid
+    r = z3.Int(uid("dist_world_size"))
+    return VInt(z3.If(r >= 1, r, 1))
+
+
+def _pool(attr, cond):
+    lab = f"LabelOf(dataset, self.{attr}[k])"
+    return [f"forall(lambda k: implies(0 <= k and k + 1 < len(self.{attr}), self.{attr}[k] < self.{attr}[k + 1]))",
+            f"forall(lambda k: implies(0 <= k and k < len(self.{attr}), 0 <= self.{attr}[k] and self.{attr}[k] < len(dataset) and "
+            f"{cond.format(l=lab)}))",
+            f"forall(lambda j: implies(0 <= j and j < len(dataset) and {cond.format(l='LabelOf(dataset, j)')}, "
+            f"exists(lambda k: 0 <= k and k < len(self.{attr}) and self.{attr}[k] == j)))"]
+
+
+SEMI_INIT = dict(
+    target=f"{FS}::SemiSampler.__init__", self={}, merge=False,
+    params={"dataset": LABELDATASET, "num_labeled": INT, "num_unlabeled": INT, "rank": TOpt(INT), "world_size": TOpt(INT), "seed": INT,
+            "length_mode": STR},
+    externals={"kappadata/utils/distributed.py::get_rank": _ext_rank, "kappadata/utils/distributed.py::get_world_size": _ext_world},
+    asserts={0: "reject", 1: "reject", 2: "reject", 3: "reject"},
+    # domain: an explicitly given world size is a positive integer (the code takes any truthy value as it is)
+    requires=["implies(world_size is not None, val(world_size) >= 1)"],
+    ensures=_pool("labeled_idxs", "{l} != -1") + _pool("unlabeled_idxs", "{l} == -1") +
+            ["len(self.labeled_idxs) >= 1 and len(self.unlabeled_idxs) >= 1", "self.num_labeled >= 1 and self.num_unlabeled >= 1",
+             "self.world_size >= 1", "self.length_mode == 'labeled' or self.length_mode == 'unlabeled' or self.length_mode == 'all'"],
+)
+
+# (ClassBalancedSampler.__init__ is NOT under contract: its list comprehension of per-class filters needs one filter instance per
+#  symbolic class, which the comprehension model of the engine does not provide - a spurious refutation was the result, so the
+#  contract was withdrawn rather than registered; the constructor's pools are covered by the bounded stand-in only.)
